@@ -228,6 +228,13 @@ func TestC16Schema(t *testing.T) {
 		opts.AllKindsChance = 0
 		opts.MaxRelEdges = 8
 		opts.OddCardinality = true
+
+		// One schema in five is dense: enough relationships for a list of
+		// more than a dozen entries.
+		if rapid.IntRange(0, 4).Draw(t, "dense") == 0 {
+			opts.MinTypes, opts.MaxTypes, opts.MaxRelEdges = 3, 6, 45
+		}
+
 		ss := gen.CoherentSchema(t, opts)
 
 		if errs := ss.Schema.Check(); len(errs) != 0 {
